@@ -376,9 +376,34 @@ def finish_hang(job, res, stats):
 
 # ---------------------------------------------------------------------------------------------------------------
 
+def inventory_stage(ctx, res):
+    """when the inventory changed or its proofs broke: name the raise/assert sites that are not on the allow-list (the
+    decision is made by the Lean side, `C01.unlisted` over the regenerated Gen data)"""
+    if not (ctx.gen_changed or ctx.proof_broken or ctx.tie_broken):
+        return 0
+    try:
+        rep = lc.canon(core.driver_batch([[Atom("c01-unlisted")]])[0])
+    except core.HarnessError:
+        return 1
+    if rep[0] != "ok":
+        return 1
+    for file, func, cls, idx in rep[1][0]:
+        ln = translate.fail_sites.locate(file, func, cls, idx)
+        res.violate(f"C01:unlisted-raise:{file}:{func}:{cls}", f"{file}:{ln} {func} raises {cls} (site #{idx} of that class in the "
+                    "function): not a template syntax error and not on the justified allow-list of Model/FailAllow.lean; no "
+                    "input reaching it was found by this run unless a violation below names one",
+                    {"site": [file, func, cls, idx], "line": ln, "theorem": "non_syntax_raise_sites_allowed"}, no_input=True)
+    for file, func, idx in rep[1][1]:
+        ln = translate.fail_sites.locate(file, func, None, idx)
+        res.violate(f"C01:unlisted-assert:{file}:{func}", f"{file}:{ln} {func}: new assert statement (#{idx} in the function) not on "
+                    "the allow-list", {"site": [file, func, idx], "line": ln, "theorem": "assert_sites_allowed"}, no_input=True)
+    return len(rep[1][0]) + len(rep[1][1])
+
+
 def run(ctx, res):
     jinja2 = core.import_jinja()
     stats = {}
+    suspicious = inventory_stage(ctx, res)          # a new way to raise: search harder for an input that reaches it
     t0 = core.now()
     secs = {}
     shape_jobs = start_shapes(ctx)
@@ -400,6 +425,8 @@ def run(ctx, res):
     for name in (["default", "async", "sandboxed", "ext"] if ctx.quick else envs):
         tasks += [("special", name, i, nparts) for i in range(nparts)]
     chunks, per_chunk, nmut = ctx.pick((4, 60, 3), (16, 250, 4))
+    if suspicious:
+        chunks *= 4
     for name in envs:
         tasks += [("gen", name, ctx.seed, ch, per_chunk, nmut) for ch in range(chunks)]
     # longest tasks first
